@@ -5,10 +5,16 @@ recipe = {
   'base': {'kind': 'rect', 'dx': [...], 'dy': [...], 'dz': [...], 'origin': [x, y, z]}
         | {'kind': 'shipped', 'file': 'g3.dat', 'seed': i, 'ncols': n}   # n columns around column i (BFS)
         | {'kind': 'tiny', 'which': 0..2}                                 # hand-built mixed tri/quad/pentagon meshes
+        | {'kind': 'hang', 'dx', 'dy', 'dz', 'origin', 'k': [[k00, k01..], ..]}  # rectangular cells, cell (row j, col i) cut into
+                                          #   k x k sub-cells; coarser neighbours get the hanging nodes -> 5..16-sided columns
+        | {'kind': 'ngon', 'corners': n, 'hang': [h0..], 'radii': [r0..], 'dz'}  # convex n-gon with h_i straight nodes on side i,
+                                          #   surrounded by a ring of quadrilaterals
   'convention', 'atmos', 'justify', 'chars', 'spaces', 'block_order',
   'ops': [{'op': 'refine', 'cols': [...], 'bisect': False|True|'x'|'y'}, {'op': 'rotate', 'angle': a},
           {'op': 'translate', 'shift': [x, y, z]}, {'op': 'refine_layers', 'layers': [...], 'factor': k},
-          {'op': 'decompose'}],
+          {'op': 'decompose'[, 'cols': [...]]}, {'op': 'split', 'col': i, 'node': j}, {'op': 'triangulate', 'col': i}],
+          a refine op may give {'region': {'shape': ..., 'seed': i, ...}} instead of 'cols' (see region_columns) and
+          'edge_pick': [i, ...] choosing bisect_edge_columns among the columns of the transition region (transition_candidates)
   'surfaces': [[col, layer, frac], ...]   # column index (mod n), underground layer index (mod n), position in the layer:
                                           #   frac == 0 -> exactly on the layer's bottom boundary; 0<frac<1 inside; frac>=1 -> above
                                           #   the top of the model by (frac-1) layer thicknesses (layer forced to the top one)
@@ -89,6 +95,204 @@ def bfs_columns(g, seed, n):
     return order
 
 
+
+def _finish_mesh(g, b, rc, nodes, cols):
+    """nodes: list of (key, (x, y)); cols: list of lists of keys.  Names are numbered in order with the
+    recipe's convention / characters, connections join every pair of columns with a common side."""
+    import numpy as np
+    from mulgrids import node, column, connection
+    justify = rc.get('justify', 'r')
+    justfn = [str.rjust, str.ljust][justify == 'l']
+    chars = CHARS[rc.get('chars', 'lower')]
+    spaces = rc.get('spaces', True)
+    byname = {}
+    for i, (key, pos) in enumerate(nodes):
+        name = g.node_name_from_number(i + 1, justfn, chars, spaces)
+        g.add_node(node(name, np.array(pos, dtype=float)))
+        byname[key] = g.node[name]
+    sides = {}
+    for i, keys in enumerate(cols):
+        name = g.column_name_from_number(i + 1, justfn, chars, spaces)
+        g.add_column(column(name, [byname[k] for k in keys]))
+        col = g.column[name]
+        n = col.num_nodes
+        for a in range(n):
+            sides.setdefault(frozenset((col.node[a].name, col.node[(a + 1) % n].name)), []).append(col)
+    for key in sorted(sides, key=lambda k: sorted(k)):
+        cs = sides[key]
+        if len(cs) == 2: g.add_connection(connection([cs[0], cs[1]]))
+    org = b.get('origin', [0., 0., 0.])
+    g.add_layers(list(b['dz']), org[2], justify, chars, spaces)
+    g.set_default_surface(); g.identify_neighbours()
+    g.setup_block_name_index(); g.setup_block_connection_name_index()
+    return g
+
+
+def hang_mesh(b, rc):
+    """Rectangular cells dx x dy; cell (row j, column i) is cut into k[j][i] x k[j][i] equal sub-cells.  A sub-cell
+    whose neighbour is cut finer carries the neighbour's nodes on its side (straight angles): columns with 4..16 sides."""
+    import mulgrids
+    from fractions import Fraction as F
+    g = mulgrids.mulgrid(type='GENER', convention=rc.get('convention', 0), atmos_type=rc.get('atmos', 2),
+                         block_order=rc.get('block_order'))
+    dx, dy, k = list(b['dx']), list(b['dy']), b['k']
+    org = b.get('origin', [0., 0., 0.])
+    X, Y = [float(org[0])], [float(org[1])]
+    for d in dx: X.append(X[-1] + d)
+    for d in dy: Y.append(Y[-1] + d)
+
+    def coord(u, V, dv):
+        i0 = int(u) if u < len(dv) else len(dv) - 1
+        fr = u - i0
+        if fr == 0: return V[i0]
+        if fr == 1: return V[i0 + 1]
+        return V[i0] + dv[i0] * float(fr)
+    cells = []
+    keys = set()
+    for j in range(len(dy)):
+        for i in range(len(dx)):
+            kk = int(k[j % len(k)][i % len(k[j % len(k)])])
+            for bb in range(kk):
+                for aa in range(kk):
+                    u0, u1, v0, v1 = F(i) + F(aa, kk), F(i) + F(aa + 1, kk), F(j) + F(bb, kk), F(j) + F(bb + 1, kk)
+                    cells.append((u0, u1, v0, v1))
+                    keys.update([(u0, v0), (u1, v0), (u1, v1), (u0, v1)])
+    order = sorted(keys, key=lambda q: (q[1], q[0]))
+    nodes = [(q, (coord(q[0], X, dx), coord(q[1], Y, dy))) for q in order]
+    cols = []
+    for u0, u1, v0, v1 in cells:
+        bottom = sorted([q for q in keys if q[1] == v0 and u0 <= q[0] < u1])
+        right = sorted([q for q in keys if q[0] == u1 and v0 <= q[1] < v1], key=lambda q: q[1])
+        top = sorted([q for q in keys if q[1] == v1 and u0 < q[0] <= u1], reverse=True)
+        left = sorted([q for q in keys if q[0] == u0 and v0 < q[1] <= v1], key=lambda q: -q[1])
+        cols.append(bottom + right + top + left)
+    return _finish_mesh(g, b, rc, nodes, cols)
+
+
+def ngon_mesh(b, rc):
+    """Convex polygon with b['corners'] corners on radii b['radii'] (x 100 m) at equal angles, b['hang'][i] extra nodes
+    spaced evenly on side i (straight angles), surrounded by one ring of quadrilaterals (one per sub-side)."""
+    import mulgrids, math
+    g = mulgrids.mulgrid(type='GENER', convention=rc.get('convention', 0), atmos_type=rc.get('atmos', 2),
+                         block_order=rc.get('block_order'))
+    n = int(b['corners'])
+    org = b.get('origin', [0., 0., 0.])
+    rad = [100.0 * float(b.get('radii', [1.0])[i % len(b.get('radii', [1.0]))]) for i in range(n)]
+    ph = float(b.get('phase', 0.0))
+    corner = [(org[0] + rad[i] * math.cos(ph + 2 * math.pi * i / n), org[1] + rad[i] * math.sin(ph + 2 * math.pi * i / n))
+              for i in range(n)]
+    inner = []
+    for i in range(n):
+        h = int(b.get('hang', [0])[i % len(b.get('hang', [0]))])
+        a, c = corner[i], corner[(i + 1) % n]
+        for m in range(h + 1):
+            t = m / float(h + 1)
+            inner.append((a[0] + t * (c[0] - a[0]), a[1] + t * (c[1] - a[1])))
+    N = len(inner)
+    sc = float(b.get('ring', 1.8))
+    outer = [(org[0] + sc * (p[0] - org[0]), org[1] + sc * (p[1] - org[1])) for p in inner]
+    nodes = [(('i', m), inner[m]) for m in range(N)] + [(('o', m), outer[m]) for m in range(N)]
+    cols = [[('i', m) for m in range(N)]]
+    for m in range(N):
+        m1 = (m + 1) % N
+        cols.append([('i', m1), ('i', m), ('o', m), ('o', m1)])
+    return _finish_mesh(g, b, rc, nodes, cols)
+
+
+# ---------------------------------------------------------------------- column selections (refinement regions)
+
+def column_sides(col):
+    n = col.num_nodes
+    return [frozenset((col.node[a].name, col.node[(a + 1) % n].name)) for a in range(n)]
+
+
+def side_owners(g):
+    own = {}
+    for c in g.columnlist:
+        for s in column_sides(c): own.setdefault(s, []).append(c)
+    return own
+
+
+def region_columns(g, spec):
+    """Columns of a refinement region described by shape (resolved geometrically, so it works on any mesh):
+    single | strip (band through the seed column along axis) | L (two half bands) | ring (columns sharing a node with the
+    seed, without the seed: a region with a hole) | blob (breadth-first ball of `size` columns) | boundary (columns with a
+    side on the boundary of the domain, optionally only those on the `axis` low/high side) | checker (every other column by
+    breadth-first parity) | random (indices `pick`) | all.  Returned in columnlist order."""
+    n = g.num_columns
+    shape = spec.get('shape', 'single')
+    seed = g.columnlist[spec.get('seed', 0) % n]
+    sel = set()
+    if shape == 'single':
+        sel = {seed.name}
+    elif shape in ('strip', 'L'):
+        bb = seed.bounding_box
+        ax = 0 if spec.get('axis', 'x') == 'x' else 1
+        oth = 1 - ax
+
+        def band(a, half):
+            out = set()
+            for c in g.columnlist:
+                if bb[0][1 - a] <= c.centre[1 - a] <= bb[1][1 - a]:
+                    if not half or c.centre[a] >= seed.centre[a]: out.add(c.name)
+            return out
+        sel = band(ax, False) if shape == 'strip' else (band(ax, True) | band(oth, True))
+    elif shape == 'ring':
+        for nd in seed.node:
+            for c in nd.column: sel.add(c.name)
+        sel.discard(seed.name)
+        if not sel: sel = {seed.name}
+    elif shape == 'blob':
+        sel = set(c.name for c in bfs_columns(g, spec.get('seed', 0), max(1, spec.get('size', 4))))
+    elif shape == 'boundary':
+        own = side_owners(g)
+        bcols = [c for c in g.columnlist if any(len(own[s]) == 1 for s in column_sides(c))]
+        side = spec.get('side')
+        if side:
+            bd = g.bounds
+            ax = 0 if side[0] == 'x' else 1
+            lim = bd[0][ax] if side[1] == '0' else bd[1][ax]
+            bcols = [c for c in bcols if any(nd.pos[ax] == lim for nd in c.node)] or bcols
+        sel = set(c.name for c in bcols)
+    elif shape == 'checker':
+        par = {seed.name: 0}
+        frontier = [seed]
+        while frontier:
+            nxt = []
+            for c in frontier:
+                for nb in sorted(c.neighbour, key=lambda x: x.name):
+                    if nb.name not in par:
+                        par[nb.name] = 1 - par[c.name]; nxt.append(nb)
+            frontier = nxt
+        sel = set(nm for nm, p in par.items() if p == 0)
+    elif shape == 'random':
+        sel = set(g.columnlist[i % n].name for i in spec.get('pick', [0]))
+    elif shape == 'all':
+        sel = set(c.name for c in g.columnlist)
+    else:
+        raise ValueError('unknown region shape %r' % (shape,))
+    return [c for c in g.columnlist if c.name in sel]
+
+
+def transition_candidates(g, cols, bisect):
+    """Columns just outside the refinement region that share a side which the refinement will divide (the documented
+    domain of bisect_edge_columns).  For the bisecting modes the divided sides are those named by the library's own
+    public column.bisection_sides() - used here to construct a valid argument, not as an oracle."""
+    inside = set(c.name for c in cols) if cols else set(c.name for c in g.columnlist)
+    own = side_owners(g)
+    out = {}
+    for c in (cols or g.columnlist):
+        sides = column_sides(c)
+        if bisect:
+            idx = c.bisection_sides(None if bisect is True else bisect)
+            if idx is None: continue
+            sides = [sides[int(i)] for i in idx]
+        for s in sides:
+            for o in own[s]:
+                if o.name not in inside: out[o.name] = o
+    return [c for c in g.columnlist if c.name in out]
+
+
 def build(rc):
     """recipe -> mulgrid (fresh objects every call)."""
     import mulgrids, numpy as np
@@ -105,6 +309,8 @@ def build(rc):
             g.reduce(bfs_columns(g, b.get('seed', 0), b['ncols']))
         if 'atmos' in rc: g.atmosphere_type = rc['atmos']
         if rc.get('block_order') is not None: g.block_order = rc['block_order']
+    elif b['kind'] in ('hang', 'ngon'):
+        g = hang_mesh(b, rc) if b['kind'] == 'hang' else ngon_mesh(b, rc)
     else:
         g = tiny(b['which'])
         if 'atmos' in rc: g.atmosphere_type = rc['atmos']
@@ -150,10 +356,19 @@ def apply_op(g, op, rc=None):
     k = op['op']
     chars = CHARS[(rc or {}).get('chars', 'lower')]
     if k == 'refine':
-        cols = [g.columnlist[i % g.num_columns] for i in op['cols']] if op.get('cols') is not None else []
+        if op.get('region') is not None:
+            cols = region_columns(g, op['region'])
+            if op['region'].get('shape') == 'all' and op['region'].get('implicit'): cols = []
+        else:
+            cols = [g.columnlist[i % g.num_columns] for i in op['cols']] if op.get('cols') is not None else []
         cols = list(dict((c.name, c) for c in cols).values())
         kw = {}
-        if op.get('edge'):
+        if op.get('edge_pick'):
+            cand = transition_candidates(g, cols, op.get('bisect', False))
+            if cand:
+                kw['bisect_edge_columns'] = list(dict((c.name, c) for c in
+                                                      [cand[i % len(cand)] for i in op['edge_pick']]).values())
+        elif op.get('edge'):
             kw['bisect_edge_columns'] = list(dict((c.name, c) for c in
                                                   [g.columnlist[i % g.num_columns] for i in op['edge']]).values())
         g.refine(cols, bisect=op.get('bisect', False), chars=chars, **kw)
@@ -166,7 +381,20 @@ def apply_op(g, op, rc=None):
         lays = list(dict((l.name, l) for l in [und[i % len(und)] for i in op['layers']]).values())
         g.refine_layers(lays, factor=op.get('factor', 2), chars=chars)
     elif k == 'decompose':
-        g.decompose_columns(chars=chars)
+        if op.get('cols'):
+            cols = list(dict((c.name, c) for c in [g.columnlist[i % g.num_columns] for i in op['cols']]).values())
+            g.decompose_columns(cols, chars=chars)
+        else:
+            g.decompose_columns(chars=chars)
+    elif k == 'split':
+        quads = [c for c in g.columnlist if c.num_nodes == 4]
+        if quads:
+            col = quads[op['col'] % len(quads)]
+            return g.split_column(col.name, col.node[op.get('node', 0) % 4].name, chars=chars)
+        return None
+    elif k == 'triangulate':
+        col = g.columnlist[op['col'] % g.num_columns]
+        return g.triangulate_column(col.name, chars=chars)
     else:
         raise ValueError('unknown op %r' % (op,))
 
